@@ -120,6 +120,41 @@ def setup_numbers(case, obs):
     return budget, first, order
 
 
+_SAFETY = {}
+
+
+def safety_factor(path):
+    """the `safety_factor` literal of the in-memory / cache-file loop, read from the source the check runs against"""
+    import ast
+    import inspect
+
+    key = "inmem" if path == "inmem" else "file"
+    if key not in _SAFETY:
+        import thejoker.likelihood_helpers as lh
+        import thejoker.multiproc_helpers as mh
+
+        fn = lh.iterative_rejection_inmem if key == "inmem" else mh.iterative_rejection_helper
+        fn = getattr(fn, "__wrapped__", fn)
+        val = None
+        for n in ast.walk(ast.parse(inspect.getsource(inspect.getmodule(fn)))):
+            if isinstance(n, ast.FunctionDef) and n.name == fn.__name__:
+                for a in ast.walk(n):
+                    if isinstance(a, ast.Assign) and len(a.targets) == 1 and isinstance(a.targets[0], ast.Name) and a.targets[0].id == "safety_factor" and isinstance(a.value, ast.Constant):
+                        val = a.value.value
+        _SAFETY[key] = 1 if val is None else val
+    return _SAFETY[key]
+
+
+def early_stop_ok(case, n_good, n_evals):
+    """The sampler's own estimate of the next batch size, int(safety_factor * n_need / n_good * n_ll_evals), evaluated as the code
+    does (Python floats).  Mathematically >= 1; in floating point (1/n)*n < 1 for n = 49, 98, 103, ..: when it is <= 0 the loop
+    ends with fewer samples than requested although budget is left -- allowed by the property (fewer passed than requested)."""
+    if n_good <= 0 or n_good >= case["n_req"]:
+        return False
+    n_need = case["n_req"] - n_good
+    return int(safety_factor(case["path"]) * n_need / n_good * n_evals) <= 0
+
+
 def predicate(case, obs):
     errs = []
     budget, first, order = setup_numbers(case, obs)
@@ -176,7 +211,7 @@ def predicate(case, obs):
                 errs.append("more samples than requested")
             if len(good) >= case["n_req"] and len(obs["rows"]) != case["n_req"] * case["n_linear"]:
                 errs.append(f"{len(good)} samples passed but {len(obs['rows']) // case['n_linear']} returned for a request of {case['n_req']}")
-            if len(good) < case["n_req"] and cks[-1] < budget:
+            if len(good) < case["n_req"] and cks[-1] < budget and not early_stop_ok(case, len(good), cks[-1]):
                 errs.append(f"stopped with {len(good)} < {case['n_req']} samples although only {cks[-1]} of {budget} allowed samples were evaluated")
             if case["return_logprobs"]:
                 import c06
@@ -216,8 +251,15 @@ def case_term(case, obs):
         o = "ObsNonResult"
     ordt = "None" if obs["order"] is None else "(Some " + coq_list([f"{int(i)}%nat" for i in obs["order"]]) + ")"
     lnp = coq_list([coq_xq(x) for x in S.lnprior_of_row(np.arange(case["n"]))])
+    # did the code's own next-batch estimate vanish after the last recorded iteration? (then an early end is the code's documented behaviour)
+    early = False
+    if obs["kind"] == "rows" and obs["draws"] and len(obs["draws"][-1]) == prev:
+        with np.errstate(all="ignore"):
+            allv = prof[:prev]
+            n_good = int(np.count_nonzero(np.exp(allv - allv.max()) > np.asarray(obs["draws"][-1], float)))
+        early = early_stop_ok(case, n_good, prev)
     return (f"(mk_it_case {coq_bool(case['path'] == 'inmem')} {coq_list([coq_xq(x) for x in prof])} {ordt} {case['n_req']}%nat {budget}%nat "
-            f"{first}%nat {'maxiter_inmem_gen' if case['path'] == 'inmem' else 'maxiter_file_gen'} {case['n_linear']}%nat {lnp} {coq_list(steps)} {o})")
+            f"{first}%nat {'maxiter_inmem_gen' if case['path'] == 'inmem' else 'maxiter_file_gen'} {coq_bool(early)} {case['n_linear']}%nat {lnp} {coq_list(steps)} {o})")
 
 
 def classify(case, msg):
